@@ -1,7 +1,9 @@
 package main
 
 import (
+	"os"
 	"path/filepath"
+	"strings"
 
 	"verif/engine/sym"
 )
@@ -34,7 +36,45 @@ func e2eProp(id, dir string, bounds, outside []string) *Prop {
 	}
 }
 
+// c11Prop: the programs of harness/e2e_c11, each evaluated whole and through every sequence of
+// chunks the runner derives from its text (e2eChunkSchemes).
+func c11Prop() *Prop {
+	p := e2eProp("C11", "e2e_c11",
+		[]string{"the program texts of harness/e2e_c11; for each, the cuts: one Eval per top-level declaration; the declarations then every statement of main as a loose statement (interactive style); every cut of the declarations into two Evals (thorough; quick: the middle cut); for the programs which have one, a hand-written interactive session with redefinitions of functions and variables between uses (<name>.hist.txt), claimed equivalent to the program; each for ALL values of the two integer inputs in (-1000, 1000) (quick) or (-2^31, 2^31) (thorough)"},
+		[]string{"programs outside the corpus", "Compile+Execute, CompileAST and EvalPath entry points (only successive Eval calls are exercised)", "the final global state beyond what the program outputs", "declarations out of dependency order (piecewise evaluation needs definitions before uses)", "the parser (each chunk's tree is dumped from the real front end, parsed the way Eval parses it)"})
+	p.E2EChunks = true
+	p.Assumptions = append(p.Assumptions, "the reference is the interpreter itself evaluating the text in one piece (not the compiled twin)")
+	dir := "e2e_c11"
+	p.Obligs = func(tier string) []Oblig {
+		var r []Oblig
+		files, _ := filepath.Glob(filepath.Join(verifDir, "harness", dir, "*.go.txt"))
+		bound := 1000
+		if tier == "thorough" {
+			bound = 1 << 31
+		}
+		for k, f := range files {
+			b, _ := os.ReadFile(f)
+			schemes, _ := e2eChunkSchemes(string(b))
+			nsplit := len(schemes)
+			schemes = append(schemes, e2eHistory(strings.TrimSuffix(f, ".go.txt")+".hist.txt"))
+			for si, sch := range schemes {
+				if len(sch) == 0 {
+					continue
+				}
+				// quick: per declaration, loose statements, the middle two-chunk cut, the session
+				if tier != "thorough" && si >= 2 && si < nsplit && si != 2+(nsplit-2)/2 {
+					continue
+				}
+				r = append(r, Oblig{Harness: "vh_E2E_chunks", Unroll: 400, MaxPaths: 20000, Globals: map[string]int{"vhProgIdx": k, "vhScheme": si, "vhInputBound": bound}})
+			}
+		}
+		return r
+	}
+	return p
+}
+
 func init() {
+	props["C11"] = c11Prop()
 	props["C01"] = e2eProp("C01", "e2e_programs",
 		[]string{"the program texts of harness/e2e_programs, each for ALL values of its two integer inputs in (-1000, 1000) (quick) or (-2^31, 2^31) (thorough)", "up to 400 solver decisions and 20 million executed SSA instructions per path"},
 		[]string{"every program outside the corpus", "floats, goroutines and channels, fmt output, other input types", "the parser"})
